@@ -1,7 +1,7 @@
 (* BoundsCheck.v — executable model (M3) of construction-time validation of a problem definition:
    pybads/bads/bads.py  BADS.__init__ l.150-169, 204-235  and  _bounds_check_ l.291-534  (N0 = 1:
    a single starting point), in the code's order of tests, as the code is NOW (the half-bounds test is
-   the per-coordinate one of commit eabb777).
+   the per-coordinate one of commit eabb777; an infinite x0 is rejected, commit 9bb1a08).
 
    Numbers are exact extended rationals (Model/XQ.v).  The code computes
        LB_eff = lb + 1e-3 * range        (binary64 constant 1e-3, two roundings)
@@ -46,7 +46,8 @@ Inductive reason : Type :=
 (* any other exception class escaping the constructor *)
 Inductive crash : Type :=
 | CZeroDim          (* D = 0: ZeroDivisionError while evaluating the option defaults (l.182) *)
-| COverflow.        (* np.random.uniform(plb, pub) with a non-finite range: OverflowError (l.231) *)
+| COverflow.        (* np.random.uniform(plb, pub) with a non-finite range: OverflowError (l.235);
+                       kept in the model, proved unreachable (C08_never_overflows) *)
 
 (* one coordinate of the problem *)
 Record coord : Type := mkC { cx : xq; cl : xq; cu : xq; cpl : xq; cpu : xq }.
@@ -89,7 +90,7 @@ Definition UBe (c : coord) : xq := ub_eff (cl c) (cu c).
 Definition t_nonfinite_pb (c : coord) : bool := negb (xisfinite (cpl c)) || negb (xisfinite (cpu c)).
 Definition t_fixed (c : coord) : bool := xeq (cl c) (cu c) && xeq (cu c) (cpl c) && xeq (cpl c) (cpu c).
 Definition t_matching (c : coord) : bool := xeq (cpl c) (cpu c).
-Definition t_x0_outside (c : coord) : bool := xlt (cx c) (cl c) || xlt (cu c) (cx c).
+Definition t_x0_outside (c : coord) : bool := xlt (cx c) (cl c) || xlt (cu c) (cx c) || xisinf (cx c).   (* l.409-413 *)
 Definition t_too_close (c : coord) : bool := xle (UBe c) (LBe c).          (* LB_eff >= UB_eff *)
 Definition t_x0_near (c : coord) : bool := xlt (cx c) (LBe c) || xlt (UBe c) (cx c).
 Definition t_order_bad (c : coord) : bool :=
